@@ -368,6 +368,8 @@ class Mir:
                 for _, t in b.calls():
                     c = self.callee_of(t)
                     if c in self.bodies:
+                        if c not in g[n] and ((t.get('self_ty') or '').startswith('dyn ') or not t.get('callee')):
+                            self.approx_edges.add((n, c))       # the provided method of a virtual call is one candidate among the implementations
                         g[n].add(c)
                         ap = set(self.dyn_candidates(t))
                         self.approx_edges.update((n, c_) for c_ in ap if c_ not in g[n])
